@@ -151,75 +151,79 @@ def run(ctx):
             except Exception as e:
                 ctx.violation(key + "|" + type(e).__name__, "compute_L raised %s: %s" % (type(e).__name__, str(e)[:200]), rp({}))
                 continue
-            dist[key] = dist.get(key, 0) + 1
-            if np.isnan(L).any():
-                ctx.violation(key + "|nan", "NaN in L", rp({}))
-                continue
-            A = K + j * np.eye(n)
-            gap = A - L @ L.T
-            gtol = psd_tol(n, np.linalg.norm(A, 2), np.linalg.norm(L, 2) ** 2)
-            if L.shape[0] != n:
-                ctx.violation(key + "|rows", "L does not have one row per cell", rp({"shape": list(L.shape)}))
-                continue
-            job = dict(cfg=cfg, key=key, K=K, Kxu=Kxu, Kuu=Kuu, L=L, j=j, n=n, m=m)
-            if gp == "full":
-                if L.shape != (n, n) or np.linalg.norm(gap) > 2 * (n + 1) * n * U * np.linalg.norm(A):
-                    ctx.violation(key + "|LLt", "L L^T != K + jitter I", rp({"residual": float(np.linalg.norm(gap))}))
-                job["kind"] = "full"
-            elif gp in ("sparse_cholesky", "fixed", "given_Lp"):
-                if gp == "given_Lp":
-                    Lp = Lp_in
+            try:        # a library routine that no longer goes through the recorded oracles must not stop the search: the later blocks still run
+                dist[key] = dist.get(key, 0) + 1
+                if np.isnan(L).any():
+                    ctx.violation(key + "|nan", "NaN in L", rp({}))
+                    continue
+                A = K + j * np.eye(n)
+                gap = A - L @ L.T
+                gtol = psd_tol(n, np.linalg.norm(A, 2), np.linalg.norm(L, 2) ** 2)
+                if L.shape[0] != n:
+                    ctx.violation(key + "|rows", "L does not have one row per cell", rp({"shape": list(L.shape)}))
+                    continue
+                job = dict(cfg=cfg, key=key, K=K, Kxu=Kxu, Kuu=Kuu, L=L, j=j, n=n, m=m)
+                if gp == "full":
+                    if L.shape != (n, n) or np.linalg.norm(gap) > 2 * (n + 1) * n * U * np.linalg.norm(A):
+                        ctx.violation(key + "|LLt", "L L^T != K + jitter I", rp({"residual": float(np.linalg.norm(gap))}))
+                    job["kind"] = "full"
+                elif gp in ("sparse_cholesky", "fixed", "given_Lp"):
+                    if gp == "given_Lp":
+                        Lp = Lp_in
+                    else:
+                        Arec, Lp = rec.last["chol"]
+                        # the recorder keeps the symmetrised argument (jnp.linalg.cholesky factorises (A + A^T)/2), and a Gram
+                        # matrix computed through |x|^2 + |y|^2 - 2xy is symmetric only up to cancellation error: compare like with like
+                        if Arec.shape != (m, m) or np.linalg.norm(Arec - (0.5 * (Kuu + Kuu.T) + j * np.eye(m))) > 8 * U * np.linalg.norm(Kuu):
+                            ctx.violation(key + "|Lp", "the inducing-point factor is not chol(K_uu + jitter I)", rp({}))
+                            continue
+                    res = np.abs(L @ Lp.T - Kxu)
+                    bound = 8 * m * U * (np.abs(L) @ np.abs(Lp.T)) + 1e-300
+                    if L.shape != (n, m) or (res > bound).any():
+                        ctx.violation(key + "|L=KxuLp^-T", "L Lp^T != K_xu (L is not K_xu Lp^-T)", rp({"max_ratio": float((res / bound).max()) if L.shape == (n, m) else "shape"}))
+                    if gp != "given_Lp":
+                        # never above K (joint Gram psd): min eigenvalue of (K + jI) - L L^T
+                        if np.linalg.eigvalsh((gap + gap.T) / 2).min() < -gtol:
+                            ctx.violation(key + "|above-K", "(K + jI) - L L^T is not positive semi-definite", rp({"min_eig": float(np.linalg.eigvalsh((gap + gap.T) / 2).min()), "tol": gtol}))
+                    job.update(kind="standard", Lp=Lp, given=(gp == "given_Lp"))
+                elif gp == "full_nystroem":
+                    Aw, s, v = rec.last["eigh"][-1]
+                    p = L.shape[1]
+                    exp = v[:, n - p:] * np.sqrt(s[n - p:])[None, :]
+                    if np.linalg.norm(Aw - A) > 8 * U * np.linalg.norm(A) or not np.allclose(L, exp, rtol=8 * U, atol=0):
+                        ctx.violation(key + "|eigen-truncation", "L is not V_p sqrt(S_p) of K + jI", rp({"p": p}))
+                    disc = s[: n - p]
+                    ev = np.linalg.eigvalsh((gap + gap.T) / 2)
+                    if ev.min() < -gtol or abs(np.trace(gap) - disc.sum()) > gtol * n or ev.max() > max(disc.max(initial=0.0), 0) + gtol:
+                        ctx.violation(key + "|gap", "gap is not the discarded eigen-part (psd, trace = discarded mass, bounded by the largest discarded eigenvalue)",
+                                      rp({"min_eig": float(ev.min()), "trace": float(np.trace(gap)), "discarded": float(disc.sum())}))
+                    if isinstance(rank, int) and L.shape[1] != min(rank, int((s > 0).sum())):
+                        ctx.violation(key + "|cols", "number of columns is not the retained rank", rp({"cols": L.shape[1]}))
+                    job.update(kind="nystroem", s=s[n - p:], v=v[:, n - p:], p=p, rank=rank)
                 else:
-                    Arec, Lp = rec.last["chol"]
-                    # the recorder keeps the symmetrised argument (jnp.linalg.cholesky factorises (A + A^T)/2), and a Gram
-                    # matrix computed through |x|^2 + |y|^2 - 2xy is symmetric only up to cancellation error: compare like with like
-                    if Arec.shape != (m, m) or np.linalg.norm(Arec - (0.5 * (Kuu + Kuu.T) + j * np.eye(m))) > 8 * U * np.linalg.norm(Kuu):
-                        ctx.violation(key + "|Lp", "the inducing-point factor is not chol(K_uu + jitter I)", rp({}))
-                        continue
-                res = np.abs(L @ Lp.T - Kxu)
-                bound = 8 * m * U * (np.abs(L) @ np.abs(Lp.T)) + 1e-300
-                if L.shape != (n, m) or (res > bound).any():
-                    ctx.violation(key + "|L=KxuLp^-T", "L Lp^T != K_xu (L is not K_xu Lp^-T)", rp({"max_ratio": float((res / bound).max()) if L.shape == (n, m) else "shape"}))
-                if gp != "given_Lp":
-                    # never above K (joint Gram psd): min eigenvalue of (K + jI) - L L^T
-                    if np.linalg.eigvalsh((gap + gap.T) / 2).min() < -gtol:
-                        ctx.violation(key + "|above-K", "(K + jI) - L L^T is not positive semi-definite", rp({"min_eig": float(np.linalg.eigvalsh((gap + gap.T) / 2).min()), "tol": gtol}))
-                job.update(kind="standard", Lp=Lp, given=(gp == "given_Lp"))
-            elif gp == "full_nystroem":
-                Aw, s, v = rec.last["eigh"][-1]
-                p = L.shape[1]
-                exp = v[:, n - p:] * np.sqrt(s[n - p:])[None, :]
-                if np.linalg.norm(Aw - A) > 8 * U * np.linalg.norm(A) or not np.allclose(L, exp, rtol=8 * U, atol=0):
-                    ctx.violation(key + "|eigen-truncation", "L is not V_p sqrt(S_p) of K + jI", rp({"p": p}))
-                disc = s[: n - p]
-                ev = np.linalg.eigvalsh((gap + gap.T) / 2)
-                if ev.min() < -gtol or abs(np.trace(gap) - disc.sum()) > gtol * n or ev.max() > max(disc.max(initial=0.0), 0) + gtol:
-                    ctx.violation(key + "|gap", "gap is not the discarded eigen-part (psd, trace = discarded mass, bounded by the largest discarded eigenvalue)",
-                                  rp({"min_eig": float(ev.min()), "trace": float(np.trace(gap)), "discarded": float(disc.sum())}))
-                if isinstance(rank, int) and L.shape[1] != min(rank, int((s > 0).sum())):
-                    ctx.violation(key + "|cols", "number of columns is not the retained rank", rp({"cols": L.shape[1]}))
-                job.update(kind="nystroem", s=s[n - p:], v=v[:, n - p:], p=p, rank=rank)
-            else:
-                (Cq, Q, R) = rec.last["qr"][-1]
-                (W1, s1, v1), (W2, s2, v2) = rec.last["eigh"][-2], rec.last["eigh"][-1]
-                p = L.shape[1]
-                kq = Q.shape[1]
-                exp = (Q @ v2[:, kq - p:]) * np.sqrt(s2[kq - p:])[None, :]
-                T = R @ v1
-                Mi = (T / s1) @ T.T
-                if not np.allclose(L, exp, rtol=64 * U, atol=64 * U * np.abs(exp).max()) or np.linalg.norm(W2 - Mi) > 64 * m * U * np.linalg.norm(Mi):
-                    ctx.violation(key + "|improved-nystroem", "L is not Q V_p sqrt(S_p) of R W^-1 R^T", rp({"p": p}))
-                # Q M Q^T = K_xu W^-1 K_ux  (residual form: multiply by W through v1 S1 v1^T)
-                ev = np.linalg.eigvalsh((gap + gap.T) / 2)
-                if ev.min() < -gtol * max(1.0, np.linalg.cond(Kuu + j * np.eye(m)) * U * 1e3):
-                    ctx.violation(key + "|above-K", "(K + jI) - L L^T is not positive semi-definite", rp({"min_eig": float(ev.min()), "tol": gtol}))
-                job.update(kind="modified", Q=Q, R=R, s1=s1, v1=v1, s2=s2[kq - p:], v2=v2[:, kq - p:], p=p, kq=kq, W1=W1, rank=rank)
-            jobs.append(job)
+                    (Cq, Q, R) = rec.last["qr"][-1]
+                    (W1, s1, v1), (W2, s2, v2) = rec.last["eigh"][-2], rec.last["eigh"][-1]
+                    p = L.shape[1]
+                    kq = Q.shape[1]
+                    exp = (Q @ v2[:, kq - p:]) * np.sqrt(s2[kq - p:])[None, :]
+                    T = R @ v1
+                    Mi = (T / s1) @ T.T
+                    if not np.allclose(L, exp, rtol=64 * U, atol=64 * U * np.abs(exp).max()) or np.linalg.norm(W2 - Mi) > 64 * m * U * np.linalg.norm(Mi):
+                        ctx.violation(key + "|improved-nystroem", "L is not Q V_p sqrt(S_p) of R W^-1 R^T", rp({"p": p}))
+                    # Q M Q^T = K_xu W^-1 K_ux  (residual form: multiply by W through v1 S1 v1^T)
+                    ev = np.linalg.eigvalsh((gap + gap.T) / 2)
+                    if ev.min() < -gtol * max(1.0, np.linalg.cond(Kuu + j * np.eye(m)) * U * 1e3):
+                        ctx.violation(key + "|above-K", "(K + jI) - L L^T is not positive semi-definite", rp({"min_eig": float(ev.min()), "tol": gtol}))
+                    job.update(kind="modified", Q=Q, R=R, s1=s1, v1=v1, s2=s2[kq - p:], v2=v2[:, kq - p:], p=p, kq=kq, W1=W1, rank=rank)
+                jobs.append(job)
+            except (KeyError, IndexError) as e:
+                if not any(b_.name == "oracle-not-recorded" for b_ in ctx.broken):
+                    ctx.broken.append(Broken("contract", "oracle-not-recorded", "%s: the factorisation of %s did not go through the recorded cholesky / eigh / qr (%r)" % (key, gp, e)))
     # ---- many cells (more than any plausible internal block of rows, and not a multiple of a power of two): row i of the
     #      sparse factor belongs to cell i;  L = K_xu Lp^-T  entry-wise (independent NumPy solve), never above K on a sub-block
     import mellon.cov as mcov
     from scipy.linalg import solve_triangular as st_
-    for nbig in ([1100] if not ctx.thorough else [1100, 1324, 2500]):
+    for nbig in ([5000] if not ctx.thorough else [1100, 5000, 9000]):
         r = np.random.default_rng(ctx.seed + nbig)
         xb = r.normal(size=(nbig, 2))
         xub = xb[r.choice(nbig, size=20, replace=False)] + 0.05 * r.normal(size=(20, 2))
